@@ -30,7 +30,7 @@ def describe(r):
 def check(run):
     run.build()
     files = []
-    for fam in ("images", "ctl", "bus", "oam", "prog"):
+    for fam in ("images", "ctl", "bus", "oam", "prog", "apu"):
         fs, _ = run.gen("crash", fam=fam)
         files += fs
     accepted, ids = run.validate(files, SPECDIR, "Crash.tla", "Crash.cfg")
